@@ -1,7 +1,9 @@
 package t3
 
 import (
+	"encoding/json"
 	"fmt"
+	"os"
 	"time"
 
 	"github.com/superfly/litefs/verifharness/core"
@@ -80,4 +82,41 @@ func Stage(rep *core.Report, args *core.Args, props map[string]bool) {
 	}
 	rep.Note("real-SQLite stage: %d workloads on a real kernel mount, %d SQL statements, %d captured transactions, %d failures of other properties, %d unfinished, %.1fs",
 		ran, stmts, commits, other, hangs, time.Since(t0).Seconds())
+}
+
+// MaybeReplay handles `-replay <file>` for violations reported by the real-SQLite stage: when the file
+// names a workload it is run again (alone) and judged by the same monitors. Returns false when the
+// file belongs to another stage of the check.
+func MaybeReplay(rep *core.Report, args *core.Args, props map[string]bool) bool {
+	if args.Replay == "" {
+		return false
+	}
+	b, err := os.ReadFile(args.Replay)
+	if err != nil {
+		return false
+	}
+	var f struct {
+		Replay struct {
+			W *Workload `json:"t3_workload"`
+		} `json:"replay"`
+	}
+	if json.Unmarshal(b, &f) != nil || f.Replay.W == nil {
+		return false
+	}
+	if ok, why := Available(); !ok {
+		core.Infra("cannot replay a real-SQLite workload here: %s", why)
+	}
+	w := *f.Replay.W
+	res, hung := RunIsolated(w, core.Scratch("t3-replay"), 5*time.Minute)
+	if hung || res.Skipped != "" {
+		core.Infra("real-SQLite workload %s did not produce a result (hung=%v, %s)", w, hung, res.Skipped)
+	}
+	rep.Eval(res.Evals)
+	rep.Case("t3/"+w.String(), res.Commits > 0)
+	for _, fl := range res.Fails {
+		if props[fl.Prop] {
+			rep.Violate(fl.Monitor, fl.Sig, fl.Detail, map[string]any{"t3_workload": w})
+		}
+	}
+	return true
 }
